@@ -218,7 +218,7 @@ fn cv_forward(e: &'static Engine, workers: usize, cancel_a: bool, hold: bool) {
 
 /// store-buffer member: A and B wait; A is cancelled and the single notify_one is issued in the instant in which A has
 /// registered its release (label behind SyncBlocker::set_release): either A passes the notification on or the notifier does
-fn cv_forward_sb(e: &'static Engine, workers: usize) {
+pub fn cv_forward_sb(e: &'static Engine, workers: usize) {
     static RESCUE: AtomicBool = AtomicBool::new(false);
     static B_BEFORE_RESCUE: AtomicBool = AtomicBool::new(false);
     rt_init(workers);
@@ -472,6 +472,62 @@ fn wg_run(e: &'static Engine, workers: usize, kinds: &'static [char]) {
     e.note("done");
 }
 
+/// stale queue entries: `stale` parties gave up on the condvar one after the other (T = wait_timeout(1ms) timed out,
+/// X = cancelled inside wait) with no notify in between, then a live party waits and exactly one notify_one is issued
+/// under the mutex: it must reach the live party, however many abandoned entries are queued in front of it
+fn cv_stale_entries(e: &'static Engine, workers: usize, stale: &'static str, live: char) {
+    rt_init(workers);
+    let p = Arc::new(Pair { m: Mutex::new(0), cv: Condvar::new() });
+    e.begin();
+    let mut hs = vec![];
+    for k in stale.chars() {
+        let p2 = p.clone();
+        let h = go!(move || {
+            let g = p2.m.lock().unwrap();
+            if k == 'T' {
+                let (g, r) = p2.cv.wait_timeout(g, Duration::from_millis(1)).unwrap();
+                drop(g);
+                r.timed_out()
+            } else {
+                let g = p2.cv.wait(g).unwrap();
+                drop(g);
+                false
+            }
+        });
+        hs.push((k, h));
+    }
+    // everybody is queued; the cancelled ones go first, the timed ones follow after 1 ms
+    e.quiesce();
+    for (k, h) in hs.iter() {
+        if *k == 'X' {
+            unsafe { h.coroutine().cancel() };
+        }
+    }
+    for (k, h) in hs {
+        match h.join() {
+            Ok(true) if k == 'T' => {}
+            Ok(_) => e.fail("spurious_return", "a wait returned although nobody notified and no timeout was due"),
+            Err(pl) if k == 'X' && pl.downcast_ref::<generator::Error>().is_some() => {}
+            Err(_) => e.fail("unexpected_panic", "a waiter panicked"),
+        }
+    }
+    let p3 = p.clone();
+    let w = spawn_part(e, live, move || cv_ops(e, &p3, "W"));
+    // the live party is registered
+    e.quiesce();
+    if WAITING.load(Ordering::SeqCst) != 1 {
+        e.fail("harness", "the live waiter is not waiting");
+    }
+    cv_ops(e, &p, "n");
+    if join_part(e, w).is_err() {
+        e.fail("unexpected_panic", "the live waiter panicked");
+    }
+    if RETURNED.load(Ordering::SeqCst) != 1 {
+        e.fail("lost_notification", "notify_one with a waiting party woke nobody");
+    }
+    e.note(&format!("stale={} live={}", stale, live));
+}
+
 fn mk_cv(workers: usize, parts: &'static [(char, &'static str)], main_ops: &'static str, cancel: Option<usize>) -> Scenario {
     let name = format!(
         "condvar.{}.main{}{}{}",
@@ -508,6 +564,10 @@ pub fn build(quick: bool) -> Vec<Scenario> {
         v.push(Scenario::new("C11", "condvar_forward", format!("condvar.forward.timeout.notifier_holds_mutex.w{}", w), Arc::new(move |e| cv_forward(e, w, false, true))).vt_horizon(50_000_000));
         v.push(Scenario::new("C11", "condvar_forward", format!("condvar.forward.cancel.notifier_holds_mutex.w{}", w), Arc::new(move |e| cv_forward(e, w, true, true))).vt_horizon(50_000_000));
         v.push(mk_cv(w, &[('C', "W"), ('C', "n")], "", None));
+    }
+    // abandoned queue entries in front of a live waiter
+    for (w, stale, live) in [(1usize, "TT", 'C'), (1, "XX", 'C'), (2, "TX", 'T'), (1, "TTT", 'T'), (2, "XTX", 'C'), (1, "T", 'C'), (1, "X", 'T')] {
+        v.push(Scenario::new("C11", "condvar_stale_entries", format!("condvar.stale_entries.{}.live_{}.w{}", stale, live, w), Arc::new(move |e| cv_stale_entries(e, w, stale, live))).vt_horizon(50_000_000).bound(1));
     }
     for w in [1usize, 2] {
         v.push(Scenario::new("C11", "condvar_cancel_relock", format!("condvar.cancel_during_relock.w{}", w), Arc::new(move |e| cv_cancel_during_relock(e, w, false))).vt_horizon(50_000_000));
